@@ -6,7 +6,7 @@
 From Coq Require Import String.
 From Boltons Require Import Lib.Prelude Lib.C06_Text Spec.C06_Spec Model.C06_Model Gen.C06_Gen
   Proofs.C06_Codec Proofs.C06_Utf8 Proofs.C06_Quote Proofs.C06_Lists Proofs.C06_Round Proofs.C06_Legal
-  Proofs.C06_Total Proofs.C06_GenOk.
+  Proofs.C06_QuoteMin Proofs.C06_Parts Proofs.C06_RoundMin Proofs.C06_Total Proofs.C06_GenOk.
 Open Scope N_scope.
 
 (* (T) the regenerated tables: every map entry is the byte itself or %XX, a byte is left
@@ -90,7 +90,7 @@ Theorem C06_roundtrip : forall T O, tables_ok T = true ->
   nfc [] = [] ->
   all_scalar (nfc user) = true -> all_scalar (nfc pw) = true -> all_scalar (nfc frag) = true ->
   Forall (fun s => all_scalar (nfc s) = true) rest ->
-  Forall (pair_ok O) q ->
+  Forall (C06_Round.pair_ok O) q ->
   host <> [] -> (fam =? 6) = false -> memN 58 host = false -> o_idna_enc O host = MOk ht ->
   ht <> [] -> forallb (not_in [58; 64; 47; 63; 35]) ht = true -> o_inet4 O ht = MOk b4 ->
   (if all_ascii ht then o_idna_dec O ht = MOk h2 else h2 = ht) ->
@@ -126,7 +126,7 @@ Theorem C06_roundtrip_v6 : forall T O, tables_ok T = true ->
   nfc [] = [] ->
   all_scalar (nfc user) = true -> all_scalar (nfc pw) = true -> all_scalar (nfc frag) = true ->
   Forall (fun s => all_scalar (nfc s) = true) rest ->
-  Forall (pair_ok O) q ->
+  Forall (C06_Round.pair_ok O) q ->
   memN 58 host = true -> forallb (not_in [93; 64; 47; 63; 35]) host = true ->
   o_inet6 O host = MOk V6Ok -> decode_host O host = MOk h2 ->
   match port with Some p => (0 <= p < 65536)%Z | None => True end ->
@@ -160,13 +160,28 @@ Theorem C06_rendered_legal : forall T O, tables_ok T = true ->
   nfc [] = [] ->
   all_scalar (nfc user) = true -> all_scalar (nfc pw) = true -> all_scalar (nfc frag) = true ->
   Forall (fun s => all_scalar (nfc s) = true) rest ->
-  Forall (pair_ok O) q ->
+  Forall (C06_Round.pair_ok O) q ->
   host <> [] -> (fam =? 6) = false -> memN 58 host = false -> o_idna_enc O host = MOk ht ->
   ht <> [] -> forallb (not_in [58; 64; 47; 63; 35]) ht = true -> legal (ok_regname false) ht = true ->
   match port with Some p => (0 <= p < 65536)%Z | None => True end ->
   forall full, to_text T O true u = MOk full -> wf_ref false full = true.
 Proof. exact rendered_legal. Qed.
 Print Assumptions C06_rendered_legal.
+
+Theorem C06_rendered_legal_v6 : forall T O, tables_ok T = true ->
+  forall scheme sep user pw fam host port rest q frag,
+  let nfc := o_nfc O in
+  let u := mkU scheme sep user pw fam host port ([] :: rest) q frag in
+  scheme_ok scheme = true -> forallb (not_in [58; 47; 63; 35]) scheme = true ->
+  nfc [] = [] ->
+  all_scalar (nfc user) = true -> all_scalar (nfc pw) = true -> all_scalar (nfc frag) = true ->
+  Forall (fun s => all_scalar (nfc s) = true) rest ->
+  Forall (C06_Round.pair_ok O) q ->
+  memN 58 host = true -> forallb (fun c => hexdig c || memN c [58; 46]) host = true ->
+  match port with Some p => (0 <= p < 65536)%Z | None => True end ->
+  forall full, to_text T O true u = MOk full -> wf_ref false full = true.
+Proof. exact rendered_legal_v6. Qed.
+Print Assumptions C06_rendered_legal_v6.
 
 (* FIXED POINT, FULL QUOTING, on the round-trip class: parsing the rendered text and rendering again
    gives the same text (render o parse o render = render).  Extra oracle laws: NFC is idempotent and
@@ -181,7 +196,7 @@ Theorem C06_fixpoint_full_partial : forall T O, tables_ok T = true ->
   nfc [] = [] -> (forall x, nfc (nfc x) = nfc x) -> (forall x, nfc x = [] -> x = []) ->
   all_scalar (nfc user) = true -> all_scalar (nfc pw) = true -> all_scalar (nfc frag) = true ->
   Forall (fun s => all_scalar (nfc s) = true) rest ->
-  Forall (pair_ok O) q ->
+  Forall (C06_Round.pair_ok O) q ->
   host <> [] -> (fam =? 6) = false -> memN 58 host = false -> o_idna_enc O host = MOk ht ->
   ht <> [] -> forallb (not_in [58; 64; 47; 63; 35]) ht = true -> o_inet4 O ht = MOk b4 ->
   (if all_ascii ht then o_idna_dec O ht = MOk h2 else h2 = ht) ->
@@ -200,7 +215,7 @@ Theorem C06_fixpoint_full_v6_partial : forall T O, tables_ok T = true ->
   nfc [] = [] -> (forall x, nfc (nfc x) = nfc x) -> (forall x, nfc x = [] -> x = []) ->
   all_scalar (nfc user) = true -> all_scalar (nfc pw) = true -> all_scalar (nfc frag) = true ->
   Forall (fun s => all_scalar (nfc s) = true) rest ->
-  Forall (pair_ok O) q ->
+  Forall (C06_Round.pair_ok O) q ->
   memN 58 host = true -> forallb (not_in [93; 64; 47; 63; 35]) host = true ->
   o_inet6 O host = MOk V6Ok -> decode_host O host = MOk host ->
   match port with Some p => (0 <= p < 65536)%Z | None => True end ->
@@ -216,6 +231,55 @@ Theorem C06_total : forall T O, oracle_total O -> forall s, only_parse_error (ur
 Proof. exact url_init_total. Qed.
 Print Assumptions C06_total.
 
+(* (T) the regenerated delimiter sets, used by minimal quoting *)
+Theorem C06_delims_ok : delims_ok gen_tables = true.
+Proof. exact gen_delims_ok. Qed.
+Print Assumptions C06_delims_ok.
+
+(* MINIMAL QUOTING (full_quote=False) on the round-trip class, name/IPv4 host written as it is: when no
+   path segment, query key or value, or fragment contains '%', the minimally quoted text parses back to
+   exactly those components (username and password, always fully quoted, as their NFC forms) *)
+Theorem C06_roundtrip_min : forall T O, tables_ok T = true -> delims_ok T = true ->
+  forall scheme sep user pw fam host port rest q frag b4 h2,
+  let nfc := o_nfc O in
+  let u := mkU scheme sep user pw fam host port ([] :: rest) q frag in
+  scheme <> [] -> forallb (not_in [58; 47; 63; 35]) scheme = true ->
+  nfc [] = [] ->
+  all_scalar (nfc user) = true -> all_scalar (nfc pw) = true ->
+  Forall nopct rest -> Forall pair_okm q -> nopct frag ->
+  host <> [] -> (fam =? 6) = false -> forallb (not_in [58; 64; 47; 63; 35]) host = true ->
+  o_inet4 O host = MOk b4 -> decode_host O host = MOk h2 ->
+  match port with Some p => (0 <= p < 65536)%Z | None => True end ->
+  to_text T O false u = MOk (rendered_min T O host (port_text T u) scheme user pw ([] :: rest) q frag) /\
+  url_init T O (rendered_min T O host (port_text T u) scheme user pw ([] :: rest) q frag)
+  = MOk (mkU scheme true (nfc user) (nfc pw) (if b4 then 4 else 0) h2 (port_back T u) ([] :: rest) q frag).
+Proof. exact roundtrip_min_class. Qed.
+Print Assumptions C06_roundtrip_min.
+
+(* ... and rendering the re-parsed URL minimally gives the same text.  _partial: proved on the
+   round-trip class (scheme + authority), the property claims it for every parsed well-formed reference *)
+Theorem C06_fixpoint_min_partial : forall T O, tables_ok T = true -> delims_ok T = true ->
+  forall scheme sep user pw fam host port rest q frag b4,
+  let nfc := o_nfc O in
+  let u := mkU scheme sep user pw fam host port ([] :: rest) q frag in
+  scheme <> [] -> forallb (not_in [58; 47; 63; 35]) scheme = true ->
+  nfc [] = [] -> (forall x, nfc (nfc x) = nfc x) -> (forall x, nfc x = [] -> x = []) ->
+  all_scalar (nfc user) = true -> all_scalar (nfc pw) = true ->
+  Forall nopct rest -> Forall pair_okm q -> nopct frag ->
+  host <> [] -> (fam =? 6) = false -> forallb (not_in [58; 64; 47; 63; 35]) host = true ->
+  o_inet4 O host = MOk b4 -> decode_host O host = MOk host ->
+  match port with Some p => (0 <= p < 65536)%Z | None => True end ->
+  forall m u', to_text T O false u = MOk m -> url_init T O m = MOk u' -> to_text T O false u' = MOk m.
+Proof. exact fixpoint_min_class. Qed.
+Print Assumptions C06_fixpoint_min_partial.
+
+Example C06_ex_min :
+  let u := mkU (Tx "http") false (Tx "u s") [] 0 (Tx "h.com") None [[]; Tx "a b/c?"; [233]] [(Tx "k&", Some (Tx "v=;"))] (Tx "f#g") in
+  to_text gen_tables id_oracles false u = MOk (Tx "http://u%20s@h.com/a b%2Fc%3F/" ++ [233] ++ Tx "?k%26=v%3D%3B#f%23g")
+  /\ (do u' <- url_init gen_tables id_oracles (Tx "http://u%20s@h.com/a b%2Fc%3F/" ++ [233] ++ Tx "?k%26=v%3D%3B#f%23g");
+      MOk (u_user u', u_path u', u_query u', u_frag u')) = MOk (u_user u, u_path u, u_query u, u_frag u).
+Proof. vm_compute. split; reflexivity. Qed.
+
 (* when every codec answers (ok or error), URL(text) is a URL or URLParseError: nothing else, and
    nothing outside the model *)
 Theorem C06_total_strict : forall T O, oracle_answers O -> forall s, url_or_parse_error (url_init T O s).
@@ -230,5 +294,6 @@ Print Assumptions C06_total_strict.
      exists u1, url_init T O t1 = MOk u1 /\ to_text T O true u1 = MOk t1.
      (proved above only for t1 = the rendering of a URL of the round-trip class, i.e. with scheme
       and authority; relative references, scheme-only and authority-less forms are checked per case)
-   C06_fixpoint_min : same with full_quote=False when no decoded component contains '%'.
-   C06_rendered_legal for IPv6 hosts (Spec.ipliteral_port_ok). *)
+   C06_fixpoint_min : same with full_quote=False when no decoded component contains '%'
+     (proved above on the round-trip class with a name/IPv4 host).
+*)
